@@ -692,4 +692,190 @@ theorem Rnd_int (neg : Bool) (n : Nat) (E : Int) (hn : n ≠ 0) :
   rw [roundPack_pos _ _ _ _ hn]
   simpa using this
 
+/-! ## finite binary64 patterns: value and order -/
+
+def negB64 (b : Nat) : Bool := b / 9223372036854775808 % 2 == 1
+
+theorem unpack_f64 (b : Nat) : unpack .f64 b =
+    if b / 4503599627370496 % 2048 = 2047 then
+      (if b % 4503599627370496 = 0 then .inf (negB64 b) else .nan b)
+    else if b / 4503599627370496 % 2048 = 0 then .fin (negB64 b) (b % 4503599627370496) (-1074)
+    else .fin (negB64 b) (b % 4503599627370496 + 4503599627370496)
+      (((b / 4503599627370496 % 2048 : Nat) : Int) - 1075) := by
+  simp only [unpack, emin_f64, signBit_f64, mbits_f64, ebits_f64, expMax_f64, negB64, beq_iff_eq]
+  have c1 : (2:Nat)^52 = 4503599627370496 := by decide
+  have c2 : (2:Nat)^11 = 2048 := by decide
+  simp only [c1, c2]
+  split
+  · rfl
+  · split
+    · rfl
+    · congr 1; omega
+
+/-- finite: the exponent field is not all ones -/
+def FinB (b : Nat) : Prop := b / 4503599627370496 % 2048 ≠ 2047
+instance (b : Nat) : Decidable (FinB b) := by unfold FinB; infer_instance
+
+def mantB (b : Nat) : Nat :=
+  if b / 4503599627370496 % 2048 = 0 then b % 4503599627370496 else b % 4503599627370496 + 4503599627370496
+def expB (b : Nat) : Int :=
+  if b / 4503599627370496 % 2048 = 0 then -1074 else ((b / 4503599627370496 % 2048 : Nat) : Int) - 1075
+
+theorem unpack_fin (b : Nat) (h : FinB b) : unpack .f64 b = .fin (negB64 b) (mantB b) (expB b) := by
+  rw [unpack_f64, if_neg h]; unfold mantB expB; split <;> rfl
+
+theorem unpack_fin_iff (b : Nat) : FinB b ↔ ∃ s m e, unpack .f64 b = .fin s m e := by
+  constructor
+  · intro h; exact ⟨_, _, _, unpack_fin b h⟩
+  · rintro ⟨s, m, e, h⟩
+    intro hc
+    rw [unpack_f64, if_pos hc] at h
+    split at h <;> cases h
+
+theorem mantB_lt (b : Nat) : mantB b < 9007199254740992 := by unfold mantB; split <;> omega
+theorem expB_ge (b : Nat) : -1074 ≤ expB b := by unfold expB; split <;> omega
+theorem expB_le (b : Nat) (h : FinB b) : expB b ≤ 971 := by unfold expB FinB at *; split <;> omega
+theorem mantB_norm (b : Nat) : 4503599627370496 ≤ mantB b ∨ expB b = -1074 := by
+  unfold mantB expB; split <;> omega
+
+/-- signed value `±m·2^e` -/
+def sval (s : Bool) (m : Nat) (e : Int) : ℚ := (if s then -1 else 1) * ((m : ℚ) * pow2 e)
+
+/-- the rational value of a finite pattern -/
+def bval (b : Nat) : ℚ := sval (negB64 b) (mantB b) (expB b)
+
+theorem bitLen_53 (m : Nat) (h1 : 4503599627370496 ≤ m) (h2 : m < 9007199254740992) : bitLen m = 53 :=
+  bitLen_eq (k := 52) (by omega) (by omega)
+
+/-- a 53-bit (or subnormal) mantissa is packed without rounding -/
+theorem roundMag_exact (m : Nat) (e : Int) (h0 : 0 < m) (h2 : m < 9007199254740992) (he : -1074 ≤ e)
+    (hn : 4503599627370496 ≤ m ∨ e = -1074) : roundMag .f64 m e = pk e m := by
+  have hL : bitLen m ≤ 53 := bitLen_le (k := 53) (by omega)
+  have hfe : fe64 m e = e := by
+    unfold fe64
+    rcases hn with hn | hn
+    · rw [bitLen_53 m hn h2]; split <;> omega
+    · split <;> omega
+  rw [roundMag_eq, hfe]
+  unfold qOf
+  simp
+
+theorem magnitude_fin (b : Nat) (h : FinB b) :
+    b % 9223372036854775808 = 4503599627370496 * (expB b + 1074).toNat + mantB b ∧
+    b % 9223372036854775808 < 9218868437227405312 := by
+  unfold FinB at h
+  unfold expB mantB
+  split <;> omega
+
+theorem negB64_eq (b : Nat) (hb : b < 18446744073709551616) :
+    b = (if negB64 b then 9223372036854775808 else 0) + b % 9223372036854775808 := by
+  unfold negB64
+  by_cases h : b / 9223372036854775808 % 2 = 1
+  · simp [h]; omega
+  · simp [h]; omega
+
+/-- every finite pattern is the rounding of its own value -/
+theorem Rnd_self (b : Nat) (hb : b < 18446744073709551616) (h : FinB b) : Rnd (bval b) b := by
+  obtain ⟨hm1, hm2⟩ := magnitude_fin b h
+  have hsg := negB64_eq b hb
+  by_cases h0 : mantB b = 0
+  · left
+    refine ⟨by simp [bval, sval, h0], ?_⟩
+    have he : expB b = -1074 := by have := mantB_norm b; omega
+    rw [h0, he] at hm1
+    split at hsg <;> omega
+  · have := Rnd_int (negB64 b) (mantB b) (expB b) h0
+    have hge := expB_ge b
+    have e : roundPack .f64 (negB64 b) (mantB b) (expB b) = b := by
+      rw [roundPack_pos _ _ _ _ h0, roundMag_exact _ _ (by omega) (mantB_lt b) (expB_ge b) (mantB_norm b),
+        withSign64]
+      unfold pk
+      rw [if_neg (by omega)]
+      omega
+    rw [e] at this
+    exact this
+
+theorem key_eq (a b : Nat) (ha : a < 18446744073709551616) (hb : b < 18446744073709551616)
+    (h : key a = key b) : a = b ∨ (a % 9223372036854775808 = 0 ∧ b % 9223372036854775808 = 0) := by
+  unfold key at h
+  split at h <;> split at h <;> omega
+
+theorem bval_zero (b : Nat) (h : b % 9223372036854775808 = 0) : bval b = 0 := by
+  have : mantB b = 0 := by unfold mantB; split <;> omega
+  simp [bval, sval, this]
+
+/-- **the `toOrd` order of finite patterns is the order of their values** -/
+theorem key_le_iff (a b : Nat) (ha : a < 18446744073709551616) (hb : b < 18446744073709551616)
+    (fa : FinB a) (fb : FinB b) : key a ≤ key b ↔ bval a ≤ bval b := by
+  constructor
+  · intro h
+    by_contra hc
+    have hc' : bval b ≤ bval a := le_of_lt (not_le.1 hc)
+    have h2 := Rnd_mono _ _ _ _ (Rnd_self b hb fb) (Rnd_self a ha fa) hc'
+    have heq : key a = key b := by omega
+    rcases key_eq a b ha hb heq with rfl | ⟨h1, h2⟩
+    · exact hc (le_refl _)
+    · rw [bval_zero a h1, bval_zero b h2] at hc
+      exact hc (le_refl _)
+  · intro h
+    exact Rnd_mono _ _ _ _ (Rnd_self a ha fa) (Rnd_self b hb fb) h
+
+theorem key_lt_iff (a b : Nat) (ha : a < 18446744073709551616) (hb : b < 18446744073709551616)
+    (fa : FinB a) (fb : FinB b) : key a < key b ↔ bval a < bval b := by
+  have := key_le_iff b a hb ha fb fa
+  constructor
+  · intro h; by_contra hc; have := this.2 (not_lt.1 hc); omega
+  · intro h; by_contra hc; have := this.1 (by omega); linarith
+
+/-! ## the comparison operators -/
+
+/-- not a NaN -/
+def NNB (b : Nat) : Prop := b % 9223372036854775808 ≤ 9218868437227405312
+instance (b : Nat) : Decidable (NNB b) := by unfold NNB; infer_instance
+
+theorem isNaN_iff (b : Nat) : Num.isNaN .f64 b = false ↔ NNB b := by
+  simp only [Num.isNaN, signBit_f64, infBits_f64, NNB, decide_eq_false_iff_not, Nat.not_lt]
+
+theorem toOrd_eq (b : Nat) (h : NNB b) : toOrd .f64 b = some (key b) := by
+  unfold toOrd key
+  rw [(isNaN_iff b).2 h, signBit_f64]
+  simp only [Bool.false_eq_true, if_false]
+  split <;> rfl
+
+theorem toOrd_nan (b : Nat) (h : ¬ NNB b) : toOrd .f64 b = none := by
+  unfold toOrd
+  have : Num.isNaN .f64 b = true := by
+    rcases hh : Num.isNaN .f64 b with _ | _
+    · exact absurd ((isNaN_iff b).1 hh) h
+    · rfl
+  rw [this]; rfl
+
+theorem FinB_NNB (b : Nat) (h : FinB b) : NNB b := by
+  have := (magnitude_fin b h).2
+  unfold NNB; omega
+
+theorem Rnd_NNB (v : ℚ) (b : Nat) (h : Rnd v b) : NNB b := (Rnd_lt v b h).1
+
+theorem le_iff_key (a b : Nat) (ha : NNB a) (hb : NNB b) : Num.le .f64 a b = true ↔ key a ≤ key b := by
+  unfold Num.le; rw [toOrd_eq a ha, toOrd_eq b hb]; simp
+
+theorem lt_iff_key (a b : Nat) (ha : NNB a) (hb : NNB b) : Num.lt .f64 a b = true ↔ key a < key b := by
+  unfold Num.lt; rw [toOrd_eq a ha, toOrd_eq b hb]; simp
+
+theorem le_NNB (a b : Nat) (h : Num.le .f64 a b = true) : NNB a ∧ NNB b := by
+  unfold Num.le at h
+  by_cases ha : NNB a <;> by_cases hb : NNB b
+  · exact ⟨ha, hb⟩
+  · rw [toOrd_nan b hb] at h; split at h <;> simp_all
+  · rw [toOrd_nan a ha] at h; simp at h
+  · rw [toOrd_nan a ha] at h; simp at h
+
+theorem lt_NNB (a b : Nat) (h : Num.lt .f64 a b = true) : NNB a ∧ NNB b := by
+  unfold Num.lt at h
+  by_cases ha : NNB a <;> by_cases hb : NNB b
+  · exact ⟨ha, hb⟩
+  · rw [toOrd_nan b hb] at h; split at h <;> simp_all
+  · rw [toOrd_nan a ha] at h; simp at h
+  · rw [toOrd_nan a ha] at h; simp at h
+
 end Ivg.FloatOrder
